@@ -85,6 +85,8 @@ fn main() {
                     loop {
                         std::thread::sleep(std::time::Duration::from_millis(500));
                         let cur = progress.load(std::sync::atomic::Ordering::Relaxed);
+                        // usize::MAX: all cases are done; writing the (possibly very large) output files is not a case
+                        if cur == usize::MAX { return; }
                         if cur != last { last = cur; since = std::time::Instant::now(); }
                         else if since.elapsed().as_secs() > 60 {
                             let _ = std::fs::write(outdir.join("hang.txt"), format!("{}", cur));
@@ -111,6 +113,7 @@ fn main() {
                 writeln!(cases, "{}", line).unwrap();
                 writeln!(imp, "{}", r).unwrap();
             }
+            progress.store(usize::MAX, std::sync::atomic::Ordering::Relaxed);
             cases.flush().unwrap();
             imp.flush().unwrap();
             let _ = std::fs::remove_file(&cur_path);
